@@ -19,7 +19,7 @@ func runC04(c *Ctx) {
 		depth = 4
 	}
 	c.Exhaustive = true
-	c.Rule = fmt.Sprintf("all call sequences of depth <= %d over {Add/Remove/Update (Grouping)Policy, batch add, filtered removal, ClearPolicy, (and of depth 2 over every other path: batch removal and update on p and g, UpdateFilteredPolicies, SavePolicy) LoadPolicy, BuildRoleLinks, SetRoleManager(+BuildRoleLinks), AddNamedMatchingFunc, AddNamedDomainMatchingFunc, SetModel(+LoadPolicy)} with every request of the universe enforced (Enforce and EnforceWithMatcher with a second matcher) before the first and after every change, on an RBAC model whose names include patterns (/book/* etc.) and on a domain model with a '*' domain; after every change the live enforcer's decisions are compared with the Lean model and (on the implementation) with a freshly constructed enforcer given the listed rules and the functions registered so far; seeded random sequences to length 30; non-trivial = a sequence in which some decision changed; distinct = whole sequence", depth)
+	c.Rule = fmt.Sprintf("all call sequences of depth <= %d over {Add/Remove/Update (Grouping)Policy, batch add, filtered removal, ClearPolicy, (and of depth 2 over every other path: batch removal and update on p and g, UpdateFilteredPolicies, SavePolicy) LoadPolicy, BuildRoleLinks, SetRoleManager(+BuildRoleLinks), AddNamedMatchingFunc, AddNamedDomainMatchingFunc, SetModel(+LoadPolicy)} with every request of the universe enforced (Enforce and EnforceWithMatcher with a second matcher) before the first and after every change, on an RBAC model whose names include patterns (/book/* etc.) and on a domain model with a '*' domain, and (depth 3) on a model with two role definitions g / g2 over every way of changing g2's rules; after every change the live enforcer's decisions are compared with the Lean model and (on the implementation) with a freshly constructed enforcer given the listed rules and the functions registered so far; seeded random sequences to length 30; non-trivial = a sequence in which some decision changed; distinct = whole sequence", depth)
 	// plain RBAC with pattern-like names
 	ms := rbacSpec(false, false)
 	P := [][]string{{"book_admin", "data", "read"}, {"alice", "data", "write"}}
@@ -43,7 +43,9 @@ func runC04(c *Ctx) {
 	for _, r := range reqs {
 		probes = append(probes, EOp{Kind: "enf", Req: r})
 	}
-	probes = append(probes, EOp{Kind: "enfm", Custom: "m2", Req: reqs[0]}, EOp{Kind: "haslink", PType: "g", Args: []string{"/book/1", "book_admin"}})
+	// the custom matcher ignores the action: on the write request it decides differently from the model's own
+	// matcher, so a compiled matcher served for the wrong matcher text shows
+	probes = append(probes, EOp{Kind: "enfm", Custom: "m2", Req: reqs[0]}, EOp{Kind: "enfm", Custom: "m2", Req: reqs[1]}, EOp{Kind: "haslink", PType: "g", Args: []string{"/book/1", "book_admin"}})
 	custom := map[string]*Ex{"m2": And(G2("g", RTok(0), PTok(0)), Eq(RTok(1), PTok(1)))}
 	mk := func(name string, ms *MSpec, alpha []EOp, probes []EOp, reqs [][]V, opts CaseOpts) *HistCfg {
 		cfg := &HistCfg{Name: name, MS: ms, Opts: opts, Depth: depth, Alphabet: alpha, Probes: probes}
@@ -233,6 +235,30 @@ func runC04(c *Ctx) {
 		cfgD.Depth = 3
 	}
 	enumerate(c, cfgD)
+
+	// two role definitions (g over subjects, g2 over objects): every way of changing g2's rules must reach g2's
+	// role manager and drop the memoised answers of both
+	ms2 := rbacSpec(false, true)
+	G2r := [][]string{{"data1", "data_group"}, {"data2", "data_group"}}
+	alpha2 := []EOp{
+		{Kind: "add", Sec: "p", PType: "p", Rule: []string{"admin", "data_group", "read"}},
+		{Kind: "add", Sec: "g", PType: "g", Rule: []string{"alice", "admin"}}, {Kind: "rm", Sec: "g", PType: "g", Rule: []string{"alice", "admin"}},
+		{Kind: "add", Sec: "g", PType: "g2", Rule: G2r[0]}, {Kind: "rm", Sec: "g", PType: "g2", Rule: G2r[0]},
+		{Kind: "adds", Sec: "g", PType: "g2", Ex: true, Rules: G2r}, {Kind: "rms", Sec: "g", PType: "g2", Rules: G2r},
+		{Kind: "rmf", Sec: "g", PType: "g2", FI: 0, Vals: []string{"data1"}}, {Kind: "rmf", Sec: "g", PType: "g2", FI: 1, Vals: []string{"data_group"}},
+		{Kind: "upd", Sec: "g", PType: "g2", Rule: G2r[0], New: []string{"data1", "other_group"}},
+		{Kind: "upds", Sec: "g", PType: "g2", Rules: [][]string{G2r[1]}, News: [][]string{{"data2", "other_group"}}},
+		{Kind: "clear"}, {Kind: "load"},
+	}
+	reqs2 := strReqs([]string{"alice", "admin"}, []string{"data1", "data2", "data_group"}, []string{"read"})
+	var probes2 []EOp
+	for _, r := range reqs2 {
+		probes2 = append(probes2, EOp{Kind: "enf", Req: r})
+	}
+	probes2 = append(probes2, EOp{Kind: "haslink", PType: "g2", Args: []string{"data1", "data_group"}}, EOp{Kind: "haslink", PType: "g", Args: []string{"data1", "data_group"}})
+	cfg2 := mk("two-role-definitions", ms2, alpha2, probes2, reqs2, CaseOpts{Adapter: true})
+	cfg2.Depth = 3
+	enumerate(c, cfg2)
 
 	// conditional role managers (not modelled): no stale decision after any change either
 	condFamily(c, 3, "on a conditional role definition a decision went stale: the live enforcer decides differently from a fresh one given the listed rules")
